@@ -78,8 +78,20 @@ func Skeletons() []Skeleton {
 			"Delegate(Payer,V3,150)", b1, "WithdrawTokens(Tipper,20b,1)", b1,
 		}},
 		{Name: "governance", MintOn: true, Labels: []string{
-			"Cyclelist(gov,+modeq)", b1, b1, b1, "UpdateSpec(gov,modeq,w=5)", "Tip(modeq,50)", "Submit(R1,modeq,std)", b1, b1, b1, b1, b1, b1,
-			"ReporterParams(gov,maxsel=1)", "OracleParams(gov,minstake=0)", "Cyclelist(gov,[btc,eth])", b1, b1, b1, b1,
+			"Delegate+Select(Tipper->R1,split)", "Cyclelist(gov,+modeq)", b1, b1, b1, "UpdateSpec(gov,modeq,w=5)", "Tip(modeq,50)", "Submit(R1,modeq,std)", b1, b1, b1, b1, b1, b1,
+			"ReporterParams(gov,maxsel=1)", "RemoveSelector(Payer,Tipper)", "RemoveSelector(Payer,S1)", "OracleParams(gov,minstake=0)", "Cyclelist(gov,[btc,eth])", b1, b1, b1, b1,
+		}},
+		// three aggregates of one query, then attestations requested for the first, a middle and the last of them
+		{Name: "attest-history", MintOn: false, Labels: []string{
+			"Tip(modeq,50)", "Submit(R1,modeq,std)", b1, b1, b1, "Tip(modeq,50)", "Submit(R2,modeq,std200)", b1, b1, b1,
+			"Tip(modeq,50)", "Submit(R1,modeq,std)", b1, b1, b1, "RequestAttest(modeq,first)", b1, "RequestAttest(modeq,middle)", "RequestAttest(modeq,last)", b1, b1,
+		}},
+		// a weighted-mode query whose mode differs from its median, aggregated in the same block as (and, by id, after) a
+		// weighted-median query - once per cycle-list query
+		{Name: "mode-after-median", MintOn: true, Cfg: Config{ValStakes: []int64{5000, 3000, 2900}}, Labels: []string{
+			"Tip(modeq3,50)", "Submit(RV1,modeq3,7)", "Submit(RV2,modeq3,8)", "Submit(RV3,modeq3,9)", "Submit(R1,cyc,std)", b1, b1,
+			"Tip(modeq3,50)", "Submit(RV1,modeq3,7)", "Submit(RV2,modeq3,8)", "Submit(RV3,modeq3,9)", "Submit(R1,cyc,std)", b1, b1,
+			"Tip(modeq3,50)", "Submit(RV1,modeq3,7)", "Submit(RV2,modeq3,8)", "Submit(RV3,modeq3,9)", "Submit(R1,cyc,std)", b1, b1, b1,
 		}},
 		{Name: "round-maxval2", MintOn: true, Cfg: Config{ValStakes: []int64{5000, 3000, 2900}, MaxValidators: 2}, Labels: []string{
 			"Submit(R1,cyc,std)", "Submit(R2,cyc,std200)", b1, b1, b1, "Delegate(Payer,V3,150)", b1, b1,
@@ -182,7 +194,7 @@ func init() {
 		Rule: "deviation-bounded histories (<=k inserted/substituted events from the full message alphabet, every message type in valid/boundary/malformed variants, 8 block gaps from 1ms to 21d+1s) around 7 skeletons on the real app; every history run to a 9-block quiescence horizon; oracle: Pre/Begin/EndBlocker never error or panic",
 		Assume: []string{"at least one bonded validator with a registered EVM address exists from height 2 (operator obligation; DESIGN §2.6)",
 			"signature/fee/sequence ante decorators are SDK code and not executed; the repository's stake-change decorator is", "IBC/ICQ/group/authz messages and x/slashing evidence are outside the alphabet"},
-		QuickBudget: 4 * time.Minute, ThoroughBudget: 25 * time.Minute,
+		QuickBudget: 4 * time.Minute, ThoroughBudget: 15 * time.Minute,
 	})
 }
 
@@ -217,6 +229,39 @@ func checkC02(rc *RunCtx) {
 
 // ShowSkeletons prints the outcome of every skeleton step (vacuity inspection).
 func ShowSkeletons(names []string) {
+	if len(names) > 0 {
+		// the C01-only skeletons use events of the C01 alphabet
+		for _, s := range c01Skeletons() {
+			if s.Name != names[0] || isSkeleton(s.Name) {
+				continue
+			}
+			w := NewWorld(s.Cfg)
+			c := StdSetup(w, s.MintOn)
+			resolve := Resolver(nil, WithBlocks(c01Alphabet(c)))
+			println("== C01 skeleton", s.Name)
+			for _, l := range s.Labels {
+				ev, ok := resolve(w, l)
+				if !ok {
+					println("  cannot resolve", l)
+					continue
+				}
+				out := ev.Apply(w)
+				idx, _ := w.App.BridgeKeeper.LatestCheckpointIdx.Get(w.Ctx)
+				fmt.Printf("  h %d %s -> %s %s (checkpoint index %d, aggregates %d)\n", w.Height(), l, out.Kind, out.Err, idx.Index, len(w.Aggregates()))
+				if vs, err := w.App.BridgeKeeper.BridgeValset.Get(w.Ctx); err == nil {
+					for _, v := range vs.BridgeValidatorSet {
+						fmt.Printf("      stored set member %x power %d\n", v.EthereumAddress[:3], v.Power)
+					}
+				}
+				if cur, err := w.App.BridgeKeeper.GetCurrentValidatorsEVMCompatible(w.Ctx); err == nil {
+					for _, v := range cur {
+						fmt.Printf("      current member %x power %d\n", v.EthereumAddress[:3], v.Power)
+					}
+				}
+			}
+			return
+		}
+	}
 	for _, s := range Skeletons() {
 		if len(names) > 0 && names[0] != s.Name {
 			continue
